@@ -9,6 +9,7 @@ package interp
 // harness vocabulary (package vf).
 
 import (
+	"unicode"
 	"fmt"
 	"go/token"
 	"go/types"
@@ -124,7 +125,7 @@ func init() {
 		"(*sync.RWMutex).RUnlock": extRWMutexRUnlock,
 		"(*sync.Once).Do":         extOnceDo,
 		"(*sync.Pool).Get":        extPoolGet,
-		"(*sync.Pool).Put":        func(fr *frame, a []value) (value, bool) { return nil, true },
+		"(*sync.Pool).Put":        extPoolPut,
 
 		// ---- sync/atomic
 		"sync/atomic.LoadInt64":             extAtomicLoad,
@@ -213,18 +214,19 @@ func init() {
 			externals[k] = v
 		}
 	}
-	// unicode class predicates on a symbolic rune: uninterpreted predicate of the
-	// rune (over-approximation: sound for totality claims; a counterexample that
-	// depends on it is confirmed or rejected by the native replay)
-	for _, name := range []string{"IsLetter", "IsDigit", "IsSpace", "IsUpper", "IsLower", "IsPrint", "IsGraphic", "IsPunct", "IsControl", "IsNumber", "IsSymbol", "IsMark", "IsTitle"} {
+	// unicode class predicates on a symbolic rune: exact range-table membership
+	// (the host's unicode tables are the target's: same Go release), so a model
+	// of the solver is a real letter/digit/... and replays natively
+	for name, tabs := range unicodeClassTables {
 		nm := "unicode." + name
-		uf := "uf_unicode_" + name
+		tabs := tabs
+		extra := unicodeClassExtra[name]
 		externals[nm] = func(fr *frame, a []value) (value, bool) {
 			s, ok := a[0].(*sym)
 			if !ok {
 				return nil, false
 			}
-			return fr.i.mkval(types.Bool, fr.i.ctx.App(uf, smt.Bool, s.t)), true
+			return fr.i.mkval(types.Bool, unicodeClassTerm(fr.i.ctx, s.t, tabs, extra)), true
 		}
 	}
 	for name, f := range map[string]func(float64) float64{
@@ -406,7 +408,28 @@ func extOnceDo(fr *frame, args []value) (value, bool) {
 	return nil, true
 }
 
+// sync.Pool: a per-path LIFO free list (what a single goroutine observes from
+// Go's per-P private slot: Get returns the object Put last, else New()), so
+// state that a recycled object carries over is visible to the exploration.
+func extPoolPut(fr *frame, args []value) (value, bool) {
+	i := fr.i
+	p := args[0].(*value)
+	if x, ok := args[1].(iface); ok && x.t == nil {
+		return nil, true
+	}
+	if i.pools == nil {
+		i.pools = map[*value][]value{}
+	}
+	i.pools[p] = append(i.pools[p], args[1])
+	return nil, true
+}
+
 func extPoolGet(fr *frame, args []value) (value, bool) {
+	if l := fr.i.pools[args[0].(*value)]; len(l) > 0 {
+		x := l[len(l)-1]
+		fr.i.pools[args[0].(*value)] = l[:len(l)-1]
+		return x, true
+	}
 	// struct sync.Pool: field New is the last field
 	st := (*args[0].(*value)).(structure)
 	newf := st[len(st)-1]
@@ -543,6 +566,50 @@ func extBuilderString(fr *frame, args []value) (value, bool) {
 }
 
 // ---- time
+
+var unicodeClassTables = map[string][]*unicode.RangeTable{
+	"IsLetter":  {unicode.Letter},
+	"IsDigit":   {unicode.Digit},
+	"IsNumber":  {unicode.Number},
+	"IsUpper":   {unicode.Upper},
+	"IsLower":   {unicode.Lower},
+	"IsTitle":   {unicode.Title},
+	"IsPunct":   {unicode.Punct},
+	"IsMark":    {unicode.Mark},
+	"IsSymbol":  {unicode.Symbol},
+	"IsControl": {unicode.Cc},
+	"IsSpace":   {unicode.White_Space},
+	"IsGraphic": {unicode.L, unicode.M, unicode.N, unicode.P, unicode.S, unicode.Zs},
+	"IsPrint":   {unicode.L, unicode.M, unicode.N, unicode.P, unicode.S},
+}
+
+// single runes that belong to a class besides its tables
+var unicodeClassExtra = map[string][]rune{"IsPrint": {' '}}
+
+// unicodeClassTerm: r (a 32-bit rune term) lies in one of the range tables.
+func unicodeClassTerm(c *smt.Ctx, r *smt.Term, tabs []*unicode.RangeTable, extra []rune) *smt.Term {
+	var ds []*smt.Term
+	rng := func(lo, hi, stride uint32) {
+		t := c.And(c.Bin(smt.OBVULE, c.BVConst(uint64(lo), 32), r), c.Bin(smt.OBVULE, r, c.BVConst(uint64(hi), 32)))
+		if stride > 1 && lo != hi {
+			off := c.Bin(smt.OBVSub, r, c.BVConst(uint64(lo), 32))
+			t = c.And(t, c.Eq(c.Bin(smt.OBVURem, off, c.BVConst(uint64(stride), 32)), c.BVConst(0, 32)))
+		}
+		ds = append(ds, t)
+	}
+	for _, tab := range tabs {
+		for _, x := range tab.R16 {
+			rng(uint32(x.Lo), uint32(x.Hi), uint32(x.Stride))
+		}
+		for _, x := range tab.R32 {
+			rng(x.Lo, x.Hi, x.Stride)
+		}
+	}
+	for _, e := range extra {
+		ds = append(ds, c.Eq(r, c.BVConst(uint64(uint32(e)), 32)))
+	}
+	return c.Or(ds...)
+}
 
 func extTimerChan(fr *frame) *gchan {
 	c := fr.i.makeChan(1)
